@@ -546,14 +546,50 @@ func defOf(in ssa.Instruction, alloc *ssa.Alloc, path []int) *def {
 			return &def{in: in, kind: "clobber"}
 		}
 	case *ssa.MakeClosure:
-		for _, b := range s.Bindings {
+		for i, b := range s.Bindings {
 			root, p := addrPath(b)
 			if root == ssa.Value(alloc) && pathRelated(p, path) {
+				if fn, ok := s.Fn.(*ssa.Function); ok && !closureWrites(fn, i, 0) {
+					continue // captured for reading only
+				}
 				return &def{in: in, kind: "clobber"}
 			}
 		}
 	}
 	return nil
+}
+
+// closureWrites: does closure fn (or a closure it creates) store through its i-th free variable or hand it to a call?
+func closureWrites(fn *ssa.Function, i int, depth int) bool {
+	if i >= len(fn.FreeVars) || depth > 3 {
+		return true
+	}
+	fv := fn.FreeVars[i]
+	writes := false
+	Instrs(fn, func(in ssa.Instruction) {
+		switch x := in.(type) {
+		case *ssa.Store:
+			if root, _ := addrPath(x.Addr); root == ssa.Value(fv) {
+				writes = true
+			}
+		case ssa.CallInstruction:
+			c := x.Common()
+			for _, a := range c.Args {
+				if root, _ := addrPath(a); root == ssa.Value(fv) {
+					writes = true
+				}
+			}
+		case *ssa.MakeClosure:
+			for j, b := range x.Bindings {
+				if root, _ := addrPath(b); root == ssa.Value(fv) {
+					if g, ok := x.Fn.(*ssa.Function); ok && closureWrites(g, j, depth+1) {
+						writes = true
+					}
+				}
+			}
+		}
+	})
+	return writes
 }
 
 func callClobbers(c *ssa.CallCommon, alloc *ssa.Alloc, path []int) bool {
